@@ -93,6 +93,13 @@ impl GraphBlock {
     }
 
     pub fn to_markdown(&self, options: &MarkdownOptions) -> String {
+        self.to_markdown_marked(false, options)
+    }
+
+    // `alternate`: use the other list marker ("*" for bullets, ")" for numbers). A list that
+    // directly follows a list of the same kind has to differ from it in its marker, otherwise
+    // the two are read back as one list.
+    fn to_markdown_marked(&self, alternate: bool, options: &MarkdownOptions) -> String {
         match self {
             GraphBlock::Plain(inlines) => format!("{}\n", inlines_to_markdown(inlines, options)),
             GraphBlock::Para(inlines) => format!("{}\n", inlines_to_markdown(inlines, options)),
@@ -123,6 +130,7 @@ impl GraphBlock {
                     left_pad_and_prefix_num(
                         &blocks_to_markdown_and(item, self.is_sparce_list(), options),
                         n + 1,
+                        if alternate { ')' } else { '.' },
                     )
                 })
                 .collect::<Vec<String>>()
@@ -130,11 +138,10 @@ impl GraphBlock {
             GraphBlock::BulletList(items) => items
                 .iter()
                 .map(|item| {
-                    left_pad_and_prefix(&blocks_to_markdown_and(
-                        item,
-                        self.is_sparce_list(),
-                        options,
-                    ))
+                    left_pad_and_prefix(
+                        &blocks_to_markdown_and(item, self.is_sparce_list(), options),
+                        if alternate { '*' } else { '-' },
+                    )
                 })
                 .collect::<Vec<String>>()
                 .join(if self.is_sparce_list() { "\n" } else { "" }),
@@ -401,7 +408,7 @@ fn has_adjacent_quotes(item: &Blocks) -> bool {
     })
 }
 
-fn left_pad_and_prefix(text: &str) -> String {
+fn left_pad_and_prefix(text: &str, marker: char) -> String {
     // the marker goes on the first line that has content: an item without text of its own
     // starts with its first child block ("- ```")
     let start = text.lines().position(|line| !line.is_empty()).unwrap_or(0);
@@ -410,7 +417,7 @@ fn left_pad_and_prefix(text: &str) -> String {
         if line.is_empty() {
             result.push_str("\n");
         } else if n == 0 {
-            result.push_str(&format!("- {}\n", line));
+            result.push_str(&format!("{} {}\n", marker, line));
         } else {
             result.push_str(&format!("  {}\n", line));
         }
@@ -419,8 +426,8 @@ fn left_pad_and_prefix(text: &str) -> String {
     result
 }
 
-fn left_pad_and_prefix_num(text: &str, num: usize) -> String {
-    let prefix = format!("{}.{}", num, if num > 9 { "" } else { " " });
+fn left_pad_and_prefix_num(text: &str, num: usize, delimiter: char) -> String {
+    let prefix = format!("{}{}{}", num, delimiter, if num > 9 { "" } else { " " });
     let start = text.lines().position(|line| !line.is_empty()).unwrap_or(0);
     let mut result = String::new();
     for (n, line) in text.lines().skip(start).enumerate() {
@@ -596,27 +603,36 @@ pub fn inlines_to_markdown(content: &GraphInlines, options: &MarkdownOptions) ->
         .join("")
 }
 
-pub fn blocks_to_markdown_and(blocks: &Blocks, sparce: bool, options: &MarkdownOptions) -> String {
+fn blocks_to_strings(blocks: &Blocks, options: &MarkdownOptions) -> Vec<String> {
+    let mut alternate = false;
     blocks
         .iter()
-        .map(|block| block.to_markdown(options))
-        .collect::<Vec<String>>()
+        .enumerate()
+        .map(|(n, block)| {
+            let follows_same_kind = n > 0
+                && match (&blocks[n - 1], block) {
+                    (GraphBlock::BulletList(_), GraphBlock::BulletList(_)) => true,
+                    (GraphBlock::OrderedList(_), GraphBlock::OrderedList(_)) => true,
+                    _ => false,
+                };
+            alternate = follows_same_kind && !alternate;
+            block.to_markdown_marked(alternate, options)
+        })
+        .collect()
+}
+
+pub fn blocks_to_markdown_and(blocks: &Blocks, sparce: bool, options: &MarkdownOptions) -> String {
+    blocks_to_strings(blocks, options)
         .join(if sparce { "\n" } else { "" })
 }
 
 pub fn blocks_to_markdown(blocks: &Blocks, options: &MarkdownOptions) -> String {
-    blocks
-        .iter()
-        .map(|block| block.to_markdown(options))
-        .collect::<Vec<String>>()
+    blocks_to_strings(blocks, options)
         .join("")
 }
 
 pub fn blocks_to_markdown_sparce(blocks: &Blocks, options: &MarkdownOptions) -> String {
-    blocks
-        .iter()
-        .map(|block| block.to_markdown(options))
-        .collect::<Vec<String>>()
+    blocks_to_strings(blocks, options)
         .join("\n")
 }
 
